@@ -453,6 +453,12 @@ func (tb *TB) bin(op string, a, b *Term) *Term {
 	}
 	isZero := func(t *Term) bool { return t.Op == "bv" && t.Val.Sign() == 0 }
 	switch op {
+	case "bvadd", "bvmul", "bvand", "bvor", "bvxor":
+		if a.Op == "bv" || (b.Op != "bv" && a.ID > b.ID) {
+			a, b = b, a
+		}
+	}
+	switch op {
 	case "bvadd":
 		if isZero(a) {
 			return b
@@ -499,6 +505,15 @@ func (tb *TB) bin(op string, a, b *Term) *Term {
 		}
 		if b.Op == "bv" && b.Val.Cmp(mask(w)) == 0 {
 			return a
+		}
+		if b.Op == "bv" {
+			// (x & c1) & c2 = x & (c1&c2) ; (x | c1) & c2 = (x & c2) | (c1&c2)
+			if a.Op == "bvand" && a.Args[1].Op == "bv" {
+				return tb.bin("bvand", a.Args[0], tb.BVConst(new(big.Int).And(a.Args[1].Val, b.Val), w))
+			}
+			if a.Op == "bvor" && a.Args[1].Op == "bv" {
+				return tb.bin("bvor", tb.bin("bvand", a.Args[0], b), tb.BVConst(new(big.Int).And(a.Args[1].Val, b.Val), w))
+			}
 		}
 	case "bvor":
 		if isZero(a) {
@@ -743,8 +758,10 @@ func bvLit(v *big.Int, w int) string {
 }
 
 type printer struct {
-	tb    *TB
-	names map[int]string // hoisted definitions
+	tb     *TB
+	names  map[int]string // hoisted definitions
+	absMul bool           // print non-constant multiplications as an uninterpreted function
+	mulW   map[int]bool
 }
 
 func (p *printer) str(t *Term, sb *strings.Builder) {
@@ -794,6 +811,10 @@ func (p *printer) raw(t *Term, sb *strings.Builder) {
 		if strings.HasPrefix(op, "uf:") {
 			op = symName(t.Name)
 		}
+		if p.absMul && op == "bvmul" && t.Args[0].Op != "bv" && t.Args[1].Op != "bv" {
+			op = fmt.Sprintf("|absmul%d|", t.Sort.W)
+			p.mulW[t.Sort.W] = true
+		}
 		sb.WriteByte('(')
 		sb.WriteString(op)
 		for _, a := range t.Args {
@@ -806,6 +827,12 @@ func (p *printer) raw(t *Term, sb *strings.Builder) {
 
 // Query renders an SMT-LIB2 script asserting all of `asserts`; check-sat; optionally get-value of `want`.
 func (tb *TB) Query(asserts []*Term, want []*Term, logicALL bool) string {
+	return tb.QueryOpt(asserts, want, logicALL, false)
+}
+
+// QueryOpt: with absMul, products of two non-constant terms are printed as applications of an
+// uninterpreted function (a sound weakening: an `unsat` answer carries over to the exact query).
+func (tb *TB) QueryOpt(asserts []*Term, want []*Term, logicALL bool, absMul bool) string {
 	// collect reachable nodes, count references
 	refs := map[int]int{}
 	var order []*Term
@@ -865,7 +892,17 @@ func (tb *TB) Query(asserts []*Term, want []*Term, logicALL bool) string {
 		}
 		fmt.Fprintf(&sb, ") %s)\n", d.Res.str)
 	}
-	p := &printer{tb: tb, names: map[int]string{}}
+	p := &printer{tb: tb, names: map[int]string{}, absMul: absMul, mulW: map[int]bool{}}
+	if absMul {
+		for _, t := range order {
+			if t.Op == "bvmul" && t.Args[0].Op != "bv" && t.Args[1].Op != "bv" {
+				if !p.mulW[t.Sort.W] {
+					p.mulW[t.Sort.W] = true
+					fmt.Fprintf(&sb, "(declare-fun |absmul%d| (%s %s) %s)\n", t.Sort.W, t.Sort.str, t.Sort.str, t.Sort.str)
+				}
+			}
+		}
+	}
 	for _, t := range order {
 		if len(t.Args) == 0 || t.hasBnd {
 			continue
@@ -882,6 +919,24 @@ func (tb *TB) Query(asserts []*Term, want []*Term, logicALL bool) string {
 		sb.WriteString("(assert ")
 		p.str(a, &sb)
 		sb.WriteString(")\n")
+	}
+	if absMul {
+		// ground instances of commutativity and of the zero law for every abstracted product
+		for _, t := range order {
+			if t.Op == "bvmul" && t.Args[0].Op != "bv" && t.Args[1].Op != "bv" && !t.hasBnd {
+				var a, b, m strings.Builder
+				p.str(t.Args[0], &a)
+				p.str(t.Args[1], &b)
+				p.str(t, &m)
+				w := t.Sort.W
+				zero := bvLit(big.NewInt(0), w)
+				one := bvLit(big.NewInt(1), w)
+				fmt.Fprintf(&sb, "(assert (= %s (|absmul%d| %s %s)))\n", m.String(), w, b.String(), a.String())
+				fmt.Fprintf(&sb, "(assert (=> (or (= %s %s) (= %s %s)) (= %s %s)))\n", a.String(), zero, b.String(), zero, m.String(), zero)
+				fmt.Fprintf(&sb, "(assert (=> (= %s %s) (= %s %s)))\n", a.String(), one, m.String(), b.String())
+				fmt.Fprintf(&sb, "(assert (=> (= %s %s) (= %s %s)))\n", b.String(), one, m.String(), a.String())
+			}
+		}
 	}
 	sb.WriteString("(check-sat)\n")
 	if len(want) > 0 {
